@@ -1,4 +1,5 @@
 import PyodaProofs.C05
+import PyodaProofs.C04Spec
 
 #print axioms Pyoda.C05.containsLocal_iff
 #print axioms Pyoda.C05.mapLocal_sound
@@ -11,3 +12,4 @@ import PyodaProofs.C05
 #print axioms Pyoda.C05.lenient_spec
 #print axioms Pyoda.C05.startOfDay_spec_partial
 #print axioms Pyoda.C05.toy_spec
+#print axioms Pyoda.C04.dataOK_gives_spec
